@@ -366,18 +366,15 @@ func (c *Ctx) c01MetablockBinding(R string) {
 		c.check(o == "p0.Signed", R, fname(gp), "returned payload", instrPos(r), "returns receiver.Signed", "GetPayload returns "+o+", not the Signed field that is verified")
 	}
 	// GetSignableRepresentation = cjson.EncodeCanonical(receiver.Signed)
-	n := 0
-	for _, call := range callsIn(gs, "ssl/cjson.EncodeCanonical") {
-		n++
-		o := org(call.Common().Args[0])
+	if call, arg := c.canonicalSite(gs); call != nil {
+		o := org(arg)
 		c.check(o == "p0.Signed", R, fname(gs), "canonicalised value", call.Pos(), "cjson.EncodeCanonical(receiver.Signed)", "canonicalises "+o+" instead of the Signed field")
 		for _, r := range returnsOf(gs) {
 			pc, idx := producer(r.Results[0], r)
 			c.check(pc == call && idx == 0, R, fname(gs), "returned bytes", instrPos(r), "returns the canonical encoding", "returned bytes are not the canonical encoding of Signed: "+org(r.Results[0]))
 		}
-	}
-	if n == 0 {
-		c.bad(R, fname(gs), "canonicalised value", gs.Pos(), "no call of securesystemslib cjson.EncodeCanonical")
+	} else {
+		c.bad(R, fname(gs), "canonicalised value", gs.Pos(), "no call of securesystemslib cjson.EncodeCanonical (directly or through a wrapper that only forwards to it)")
 	}
 	// in VerifySignature: verifier.Verify(ctx, data, sig)
 	found := false
@@ -669,4 +666,80 @@ func (c *Ctx) strictDecodes(f *ssa.Function) []strictDecode {
 		}
 	}
 	return out
+}
+
+// thinWrapperOf: g does nothing but call the named function on one of its parameters and return that call's results
+// unchanged (one call instruction, no store, no other effect). Returns the index of the parameter, or -1.
+func thinWrapperOf(g *ssa.Function, target string) int {
+	if g == nil || g.Blocks == nil {
+		return -1
+	}
+	var the ssa.CallInstruction
+	for _, b := range g.Blocks {
+		for _, in := range b.Instrs {
+			switch x := in.(type) {
+			case ssa.CallInstruction:
+				if the != nil || calleeName(x) != target {
+					return -1
+				}
+				if _, isCall := x.(*ssa.Call); !isCall {
+					return -1
+				}
+				the = x
+			case *ssa.Store, *ssa.MapUpdate, *ssa.Send, *ssa.Panic:
+				return -1
+			}
+		}
+	}
+	if the == nil || len(the.Common().Args) == 0 {
+		return -1
+	}
+	a := the.Common().Args[0]
+	for {
+		if mi, ok := a.(*ssa.MakeInterface); ok {
+			a = mi.X
+			continue
+		}
+		if ci, ok := a.(*ssa.ChangeInterface); ok {
+			a = ci.X
+			continue
+		}
+		break
+	}
+	prm, ok := a.(*ssa.Parameter)
+	if !ok {
+		return -1
+	}
+	rets := returnsOf(g)
+	if len(rets) == 0 {
+		return -1
+	}
+	for _, r := range rets {
+		for i, res := range r.Results {
+			pc, idx := producer(res, r)
+			if pc != the || idx != i {
+				return -1
+			}
+		}
+	}
+	return paramIndex(prm)
+}
+
+// canonicalSite: the call in f that yields the canonical JSON encoding: cjson.EncodeCanonical(x) itself or a thin
+// in-module wrapper of it; returns the call and the encoded value x in f's frame.
+func (c *Ctx) canonicalSite(f *ssa.Function) (ssa.CallInstruction, ssa.Value) {
+	const target = "ssl/cjson.EncodeCanonical"
+	if call := firstCall(f, target); call != nil {
+		return call, call.Common().Args[0]
+	}
+	for _, call := range allCalls(f) {
+		g := call.Common().StaticCallee()
+		if g == nil || g.Pkg == nil || !strings.HasPrefix(g.Pkg.Pkg.Path(), modPath) {
+			continue
+		}
+		if k := thinWrapperOf(g, target); k >= 0 && k < len(callArgs(call)) {
+			return call, callArgs(call)[k]
+		}
+	}
+	return nil, nil
 }
